@@ -198,6 +198,8 @@ def replay(case, scratch):
 
 CANON_OPTS = [
     dict(hashes=('SHA1',), sort=True, force=False, wm=None, fmt=None, profile='default'),
+    # the union of the hash sets of duplicate entries (dup_disjoint, dup_parent_child): the merged entry counts as unchanged
+    dict(hashes=('MD5', 'SHA1'), sort=True, force=False, wm=None, fmt=None, profile='default'),
     dict(hashes=('SHA1',), sort=True, force=True, wm=0, fmt='gz', profile='default'),
     dict(hashes=None, sort=None, force=True, wm=None, fmt=None, profile='ebuild'),
 ]
@@ -260,7 +262,9 @@ def run_shard(spec, tier, seed, scratch):
         n = len(decompress(tj['files'][mp], comp_of(os.path.basename(mp))).decode('utf8').splitlines())
         line_counts[mp] = n
     for oi, o in enumerate(CANON_OPTS):
-        if tier == 'quick' and oi == 2 and name not in ('flat', 'absent', 'nested_None_None'):
+        if tier == 'quick' and oi == 3 and name not in ('flat', 'absent', 'nested_None_None'):
+            continue
+        if tier == 'quick' and oi == 1 and not name.startswith('dup_'):
             continue
         variants = [({}, {})]
         total = 1
